@@ -77,20 +77,6 @@ theorem reach_finish (T : Table) (t : Tid) : Reach T (T.finish t) := by
   · exact .setSt _ _ (.refl _)
   · exact .refl _
 
-theorem unwind_reach : ∀ (fuel : Nat) (s : St) (v : Ret), Reach s.tbl (unwind fuel s v).tbl := by
-  intro fuel
-  induction fuel with
-  | zero => intro s v; exact .refl _
-  | succ n ih =>
-    intro s v
-    cases v <;> simp only [unwind] <;> repeat' split
-    all_goals first
-      | exact .refl _
-      | (refine Reach.trans ?_ (ih _ _); first | exact .refl _ | exact reach_finish _ _)
-      | (simp; exact .refl _)
-
-theorem ret_reach (s : St) (r : Option Reason) : Reach s.tbl (ret s r).tbl := unwind_reach _ _ _
-
 /-- closes `Reach T T'` when `T'` is `T` after at most one table operation -/
 macro "reach_one" : tactic => `(tactic| first
   | exact Reach.refl _
@@ -99,12 +85,53 @@ macro "reach_one" : tactic => `(tactic| first
   | exact Reach.remove _ (Reach.refl _)
   | exact reach_finish _ _)
 
-theorem groupStop_reach (s : St) (init : Option Tid) : Reach s.tbl (groupStop s init).tbl := by
+theorem deliverOuter_reach (s : St) (r : Option Reason) : Reach s.tbl (deliverOuter s r).tbl := by
+  simp only [deliverOuter]
+  repeat' split
+  all_goals first | reach_one | (simp; reach_one)
+
+theorem gsEnd_reach (s : St) (g : Gs) : Reach s.tbl (gsEnd s g).tbl := by
+  simp only [gsEnd]
+  repeat' split
+  all_goals first
+    | reach_one
+    | (simp; reach_one)
+    | (refine Reach.trans ?_ (deliverOuter_reach _ _); reach_one)
+
+theorem pick1_reach (s : St) (g : Gs) : Reach s.tbl (pick1 s g).tbl := by
+  simp only [pick1]
+  repeat' split
+  all_goals first | reach_one | (refine Reach.trans ?_ (gsEnd_reach _ _); reach_one)
+
+theorem pick_reach (s : St) (g : Gs) : Reach s.tbl (pick s g).tbl := by
+  simp only [pick]
+  repeat' split
+  all_goals first
+    | reach_one
+    | (refine Reach.trans ?_ (gsEnd_reach _ _); reach_one)
+    | (refine Reach.trans ?_ (pick1_reach _ _); reach_one)
+
+theorem deliverGs_reach (s : St) (g : Gs) (c : Tid) (r : Option Reason) : Reach s.tbl (deliverGs s g c r).tbl := by
+  simp only [deliverGs]
+  repeat' split
+  all_goals first | reach_one | (refine Reach.trans ?_ (pick_reach _ _); reach_one)
+
+theorem ret_reach (s : St) (r : Option Reason) : Reach s.tbl (ret s r).tbl := by
+  simp only [ret]
+  repeat' split
+  all_goals first
+    | reach_one
+    | (refine Reach.trans ?_ (deliverGs_reach _ _ _ _); reach_one)
+    | (refine Reach.trans ?_ (deliverOuter_reach _ _); reach_one)
+
+theorem groupStop_reach (s : St) (init : Option Tid) (gr : GRet) : Reach s.tbl (groupStop s init gr).tbl := by
   simp only [groupStop]
   repeat' split
   all_goals first
     | reach_one
-    | (refine Reach.trans ?_ (unwind_reach _ _ _); reach_one)
+    | (refine Reach.trans ?_ (ret_reach _ _); reach_one)
+    | (refine Reach.trans ?_ (gsEnd_reach _ _); reach_one)
+    | (refine Reach.trans ?_ (pick_reach _ _); reach_one)
 
 theorem applyNew_reach (s : St) (w : WSt) : Reach s.tbl (applyNew s w).tbl := by
   simp only [applyNew]
@@ -114,13 +141,12 @@ theorem applyNew_reach (s : St) (w : WSt) : Reach s.tbl (applyNew s w).tbl := by
     | (refine Reach.trans ?_ (ret_reach _ _); reach_one)
     | (simp; reach_one)
 
-theorem onIntr_reach (s : St) (i : Option Tid) (rd : Nat) (td : List Tid) (t : Tid) (r : Ans) :
-    Reach s.tbl (onIntr s i rd td t r).tbl := by
+theorem onIntr_reach (s : St) (g : Gs) (t : Tid) (r : Ans) : Reach s.tbl (onIntr s g t r).tbl := by
   simp only [onIntr]
   repeat' split
   all_goals first
     | reach_one
-    | (refine Reach.trans ?_ (unwind_reach _ _ _); reach_one)
+    | (refine Reach.trans ?_ (pick_reach _ _); reach_one)
 
 theorem cmdContinue_reach (s : St) : Reach s.tbl (cmdContinue s).tbl := by
   simp only [cmdContinue]
@@ -136,11 +162,11 @@ theorem step_reach (s : St) (e : Ev) : Reach s.tbl (step s e).tbl := by
     | reach_one
     | (simp; reach_one)
     | (refine Reach.trans ?_ (ret_reach _ _); reach_one)
-    | (refine Reach.trans ?_ (unwind_reach _ _ _); reach_one)
+    | (refine Reach.trans ?_ (pick_reach _ _); reach_one)
     | (refine Reach.trans ?_ (applyNew_reach _ _); reach_one)
-    | (refine Reach.trans ?_ (groupStop_reach _ _); reach_one)
-    | (refine Reach.trans ?_ (onIntr_reach _ _ _ _ _ _); reach_one)
-    | (refine Reach.trans ?_ (onIntr_reach _ _ _ _ _ _); refine Reach.trans ?_ (groupStop_reach _ _); reach_one)
+    | (refine Reach.trans ?_ (groupStop_reach _ _ _); reach_one)
+    | (refine Reach.trans ?_ (onIntr_reach _ _ _ _); reach_one)
+    | (refine Reach.trans ?_ (onIntr_reach _ _ _ _); refine Reach.trans ?_ (groupStop_reach _ _ _); reach_one)
 
 theorem run_reach (s : St) (es : List Ev) : Reach s.tbl (run s es).tbl := by
   induction es generalizing s with
@@ -220,26 +246,53 @@ macro "mreach_one" : tactic => `(tactic| first
   | exact MReach.remove _ (MReach.refl _)
   | exact mreach_finish _ _)
 
-theorem unwind_mreach : ∀ (fuel : Nat) (s : St) (v : Ret), MReach s.tbl (unwind fuel s v).tbl := by
-  intro fuel
-  induction fuel with
-  | zero => intro s v; exact .refl _
-  | succ n ih =>
-    intro s v
-    cases v <;> simp only [unwind] <;> repeat' split
-    all_goals first
-      | exact .refl _
-      | (refine MReach.trans ?_ (ih _ _); first | exact .refl _ | exact mreach_finish _ _)
-      | (simp; exact .refl _)
+theorem deliverOuter_mreach (s : St) (r : Option Reason) : MReach s.tbl (deliverOuter s r).tbl := by
+  simp only [deliverOuter]
+  repeat' split
+  all_goals first | mreach_one | (simp; mreach_one)
 
-theorem ret_mreach (s : St) (r : Option Reason) : MReach s.tbl (ret s r).tbl := unwind_mreach _ _ _
+theorem gsEnd_mreach (s : St) (g : Gs) : MReach s.tbl (gsEnd s g).tbl := by
+  simp only [gsEnd]
+  repeat' split
+  all_goals first
+    | mreach_one
+    | (simp; mreach_one)
+    | (refine MReach.trans ?_ (deliverOuter_mreach _ _); mreach_one)
 
-theorem groupStop_mreach (s : St) (init : Option Tid) : MReach s.tbl (groupStop s init).tbl := by
+theorem pick1_mreach (s : St) (g : Gs) : MReach s.tbl (pick1 s g).tbl := by
+  simp only [pick1]
+  repeat' split
+  all_goals first | mreach_one | (refine MReach.trans ?_ (gsEnd_mreach _ _); mreach_one)
+
+theorem pick_mreach (s : St) (g : Gs) : MReach s.tbl (pick s g).tbl := by
+  simp only [pick]
+  repeat' split
+  all_goals first
+    | mreach_one
+    | (refine MReach.trans ?_ (gsEnd_mreach _ _); mreach_one)
+    | (refine MReach.trans ?_ (pick1_mreach _ _); mreach_one)
+
+theorem deliverGs_mreach (s : St) (g : Gs) (c : Tid) (r : Option Reason) : MReach s.tbl (deliverGs s g c r).tbl := by
+  simp only [deliverGs]
+  repeat' split
+  all_goals first | mreach_one | (refine MReach.trans ?_ (pick_mreach _ _); mreach_one)
+
+theorem ret_mreach (s : St) (r : Option Reason) : MReach s.tbl (ret s r).tbl := by
+  simp only [ret]
+  repeat' split
+  all_goals first
+    | mreach_one
+    | (refine MReach.trans ?_ (deliverGs_mreach _ _ _ _); mreach_one)
+    | (refine MReach.trans ?_ (deliverOuter_mreach _ _); mreach_one)
+
+theorem groupStop_mreach (s : St) (init : Option Tid) (gr : GRet) : MReach s.tbl (groupStop s init gr).tbl := by
   simp only [groupStop]
   repeat' split
   all_goals first
     | mreach_one
-    | (refine MReach.trans ?_ (unwind_mreach _ _ _); mreach_one)
+    | (refine MReach.trans ?_ (ret_mreach _ _); mreach_one)
+    | (refine MReach.trans ?_ (gsEnd_mreach _ _); mreach_one)
+    | (refine MReach.trans ?_ (pick_mreach _ _); mreach_one)
 
 theorem applyNew_mreach (s : St) (w : WSt) : MReach s.tbl (applyNew s w).tbl := by
   simp only [applyNew]
@@ -249,13 +302,12 @@ theorem applyNew_mreach (s : St) (w : WSt) : MReach s.tbl (applyNew s w).tbl := 
     | (refine MReach.trans ?_ (ret_mreach _ _); mreach_one)
     | (simp; mreach_one)
 
-theorem onIntr_mreach (s : St) (i : Option Tid) (rd : Nat) (td : List Tid) (t : Tid) (r : Ans) :
-    MReach s.tbl (onIntr s i rd td t r).tbl := by
+theorem onIntr_mreach (s : St) (g : Gs) (t : Tid) (r : Ans) : MReach s.tbl (onIntr s g t r).tbl := by
   simp only [onIntr]
   repeat' split
   all_goals first
     | mreach_one
-    | (refine MReach.trans ?_ (unwind_mreach _ _ _); mreach_one)
+    | (refine MReach.trans ?_ (pick_mreach _ _); mreach_one)
 
 theorem cmdContinue_mreach (s : St) : MReach s.tbl (cmdContinue s).tbl := by
   simp only [cmdContinue]
@@ -275,11 +327,11 @@ theorem step_mreach (s : St) (e : Ev) (h : ¬ isResumeCont s e) : MReach s.tbl (
     | mreach_one
     | (simp; mreach_one)
     | (refine MReach.trans ?_ (ret_mreach _ _); mreach_one)
-    | (refine MReach.trans ?_ (unwind_mreach _ _ _); mreach_one)
+    | (refine MReach.trans ?_ (pick_mreach _ _); mreach_one)
     | (refine MReach.trans ?_ (applyNew_mreach _ _); mreach_one)
-    | (refine MReach.trans ?_ (groupStop_mreach _ _); mreach_one)
-    | (refine MReach.trans ?_ (onIntr_mreach _ _ _ _ _ _); mreach_one)
-    | (refine MReach.trans ?_ (onIntr_mreach _ _ _ _ _ _); refine MReach.trans ?_ (groupStop_mreach _ _); mreach_one)
+    | (refine MReach.trans ?_ (groupStop_mreach _ _ _); mreach_one)
+    | (refine MReach.trans ?_ (onIntr_mreach _ _ _ _); mreach_one)
+    | (refine MReach.trans ?_ (onIntr_mreach _ _ _ _); refine MReach.trans ?_ (groupStop_mreach _ _ _); mreach_one)
     | (exfalso; apply h; simp_all [isResumeCont])
 
 /-! ## Coverage argument of the group stop -/
